@@ -563,6 +563,34 @@ def main():
                 fn_records.append(rec)
                 continue
             obligations.append(oid)
+            # a counter the contracts know nothing about (`let mut level = 0; … level += 1;` added for a log line): "possible overflow"
+            # of an unbounded increment in a loop is the verifier's limit (no invariant can bound a local the template never names),
+            # not a refutation (false alarm H46). Such messages are set aside; if nothing else failed the function is UNDECIDED.
+            counter_only = []
+            if errs:
+                try:
+                    _tt = open(os.path.join(VERIF, "units", r.unit, "unit.rs.tmpl")).read()
+                    _tt = re.sub(r"//[^@\n][^\n]*", "", _tt)      # prose comments do not count; `//@` directive lines do
+                    _tt = re.sub(r"//@(?:BODY|INLINE|TAG)[^\n]*", "", _tt)    # … except the headers that only name obligations
+                except Exception:
+                    _tt = ""
+                def _free_counter(e):
+                    if "overflow" not in e["msg"]:
+                        return False
+                    at = (e.get("at") or "").strip()
+                    mm = re.fullmatch(r"(\w+)\s*(?:\+=|-=)\s*\d+\s*;?", at) or re.fullmatch(r"(\w+)\s*=\s*(\w+)\s*[+-]\s*\d+\s*;?", at)
+                    if not mm:
+                        return False
+                    if mm.lastindex == 2 and mm.group(1) != mm.group(2):
+                        return False
+                    return not re.search(r"\b%s\b" % re.escape(mm.group(1)), _tt)
+                counter_only = [e for e in errs if _free_counter(e)]
+                errs = [e for e in errs if e not in counter_only]
+            if counter_only and not errs:
+                undecided.append(f"{oid}: an unbounded counter the contracts do not name may overflow (`{counter_only[0].get('at', '')[:80]}`): verifier limit, not a refutation")
+                rec["status"] = "undecided (free counter)"
+                fn_records.append(rec)
+                continue
             if r.canary_ok.get(f.name):
                 canaries += 1
             if f.lost:
